@@ -3,6 +3,7 @@ import re
 from sa.facts import AnalysisBroken, strip_targs
 from sa import analysis as an
 from sa import rules as K
+from rules import common as C
 
 UNITS = ['witness/serialize.cpp']
 FLOOR = 25
@@ -22,6 +23,7 @@ def run(R, prog, tier):
     R.guard(pointers, R, prog)
     R.guard(gates, R, prog)
     R.guard(symmetry, R, prog)
+    R.guard(C.gather_extract, R, prog, P)      # the bounded extract the deserializer's pointers come from
 
 
 def pointers(R, prog):
@@ -49,12 +51,14 @@ def pointers(R, prog):
     G = K.build_f(R, prog, f)
     x = f.decls[f.j['params'][0]]['name']
     res = an.run(G, [an.GuardTracker(lambda k: True), an.SeenTracker([('failed', failed)])])
+    rets = K.locals_assigned_from_call(f, r'::extract_front$')          # the number of bytes the extract really delivered
+    R.require(len(rets) >= 1, 'C12: process_field(iovec_array&) no longer keeps the result of extract_front')
     K.check_at(R, P + '.K6', G, res, lambda ev: ev.kind == 'call' and (ev.callee() or '').endswith('iovec_array::assign'),
-               require=lambda st, ev: any(re.match(r'^G:ret == %s\.summed_size=T$' % re.escape(x), k) for k in st),
+               require=lambda st, ev: any(('G:%s == %s.summed_size=T' % (r, x)) in st for r in rets),
                key_fn=lambda ev: P + '.K6:DeserializerIOV::process_field(iovec_array&):assign-only-full-extract',
                describe=lambda ev: 'the iovec array is exposed only if exactly summed_size bytes were extracted', min_sites=1, what='assign')
     K.check_at(R, P + '.K7', G, res, lambda ev: ev.kind == 'exit',
-               require=lambda st, ev: 'S:failed' in st or any(re.match(r'^G:ret == .*summed_size=T$', k) for k in st),
+               require=lambda st, ev: 'S:failed' in st or any(('G:%s == %s.summed_size=T' % (r, x)) in st for r in rets),
                key_fn=lambda ev: P + '.K7:DeserializerIOV::process_field(iovec_array&):short-extract-poisons', describe=lambda ev: 'a short extract sets `failed`', min_sites=1)
     # slice::anchor
     f = prog.find(NS + 'slice::anchor')
@@ -66,14 +70,21 @@ def pointers(R, prog):
         # a return that builds a string from base.addr() + offset
         return ev.kind == 'return' and ev.depth == 0 and 'addr()' in ev.show(ev.e['sub']) and 'offset' in ev.show(ev.e['sub'])
 
+    sizes = K.locals_defined_only_by(f, r'^%s\.size\(\)$' % re.escape(base)) | {base + '.size()'}
+
     def bounded(st):
-        lo = any(re.match(r'^G:this->offset < 0=F$', k) for k in st) or any('offset' in k and '< 0' in k and k.endswith('=F') for k in st)
-        hi = any(re.match(r'^G:.*offset <= \w+=T$', k) or re.match(r'^G:.*offset.* <= .*size.*=T$', k) for k in st)
-        ln = any(re.match(r'^G:this->length <= \(.*size.*-.*offset.*\)=T$', k) or ('length' in k and 'size' in k and '<=' in k and k.endswith('=T')) for k in st)
-        return lo and hi and ln
+        # each wire quantity is compared on its own; a sum of wire quantities (offset + length) can wrap and bounds nothing
+        OFF, LEN = 'this->offset', 'this->length'
+        lo = ('G:%s < 0=F' % OFF) in st
+        for S in sizes:
+            a = ('G:%s <= %s=T' % (OFF, S)) in st and ('G:%s <= (%s - %s)=T' % (LEN, S, OFF)) in st
+            b = ('G:%s <= %s=T' % (LEN, S)) in st and ('G:%s <= (%s - %s)=T' % (OFF, S, LEN)) in st
+            if lo and (a or b):
+                return True
+        return False
     K.check_at(R, P + '.K6', G, res, raw, require=lambda st, ev: bounded(st),
                key_fn=lambda ev: P + '.K6:slice::anchor:wire-offset-bounded-at-run-time',
-               describe=lambda ev: 'base.addr()+offset is formed only after run-time tests 0 <= offset <= size and length <= size - offset (an assert is not a test under -DNDEBUG)',
+               describe=lambda ev: 'base.addr()+offset is formed only after run-time tests 0 <= offset <= size and length <= size - offset, each wire value compared on its own: a test of offset+length can wrap (an assert is not a test under -DNDEBUG)',
                min_sites=1, what='pointer formation')
 
 
@@ -87,8 +98,11 @@ def gates(R, prog):
         failed = lambda ev: (K.written_member(ev) or ('',))[0] == NS + 'DeserializerIOV::failed' and ev.f.const(ev.e['r']) == 1
         xb = lambda ev: ev.kind == 'call' and 'extract_back' in (ev.callee() or '')
         res = an.run(G, [an.GuardTracker(lambda k: True), an.SeenTracker([('body', xb), ('fields', pf), ('failed', failed)])])
+        bodies = K.locals_assigned_from_call(f, r'::extract_back$')         # the message body taken from the back of the input
+        R.require(len(bodies) >= 1, 'C12: deserialize<> no longer keeps the result of extract_back<T>()')
         K.check_at(R, P + '.K6', G, res, pf,
-                   require=lambda st, ev: 'S:body' in st and 'G:t=T' in st and any(re.match(r'^G:t->validate_checksum\(.*\)=T$', k) for k in st),
+                   require=lambda st, ev, bodies=bodies: 'S:body' in st and (ev.recv_path() or '') in bodies and ('G:%s=T' % ev.recv_path()) in st and
+                   any(k.startswith('G:%s->validate_checksum(' % ev.recv_path()) and k.endswith('=T') for k in st),
                    key_fn=lambda ev, T=T: '%s.K6:DeserializerIOV::deserialize<%s>:fields-only-after-body-and-checksum' % (P, T),
                    describe=lambda ev: 'fields are processed only after the body was extracted (non-null) and validate_checksum() returned true', min_sites=2, what='process_fields')
         K.check_at(R, P + '.K7', G, res, lambda ev: ev.kind == 'return' and ev.depth == 0,
@@ -98,7 +112,7 @@ def gates(R, prog):
         for e in f.exprs:
             if e['k'] == 'return':
                 se = f.x(f.skip(e['sub']))
-                ok = se is not None and se['k'] == 'cond' and f.path(se['c']) == 'this->failed' and f.const(se['t']) == 0 and f.path(se['f']) == 't'
+                ok = se is not None and se['k'] == 'cond' and f.path(se['c']) == 'this->failed' and f.const(se['t']) == 0 and f.path(se['f']) in bodies
                 key = '%s.K6:DeserializerIOV::deserialize<%s>:null-when-failed' % (P, T)
                 (R.held if ok else R.violated)(P + '.K6', key, f.id, f.locl(e['loc']), 'returns %s' % f.show(e['sub']))
     # checksum
